@@ -15,7 +15,7 @@ INV = ["LawBounds", "LawSymmetry", "LawIdentical", "LawDisjoint", "Law3DvsBev", 
 PYTH = [(1.0, 0.0), (0.6, 0.8), (0.8, 0.6), (-0.8, 0.6)]   # common directions (cos, sin): identity and 3-4-5 rotations
 
 
-def mk(box, rot, shift):
+def mk(box, rot, shift, int_size=False):
     """real DynamicObject for lattice box under the common rigid motion: rotation `rot` about the ego, then `shift`"""
     from ..build import obj3d
 
@@ -23,6 +23,8 @@ def mk(box, rot, shift):
     x, y, z = box["c"]
     th = math.atan2(s_, c)
     px, py = c * x - s_ * y + shift[0], s_ * x + c * y + shift[1]
+    if int_size:     # the extents as Python ints (the lattice extents are integers): same box
+        return obj3d((px, py, z + shift[2]), yaw=th + box["q"] * math.pi / 2, size=tuple(int(v) for v in box["s"]), label="car", size_as_given=True)
     return obj3d((px, py, z + shift[2]), yaw=th + box["q"] * math.pi / 2, size=tuple(float(v) for v in box["s"]), label="car")
 
 
@@ -104,6 +106,17 @@ def replay_box(arg):
                         mism.append(("plane-distance:map-storage", "plane distance^2 %r of the pair stored in map not among specification values %s" % (pdm * pdm, plane), rep))
                 except Exception as ex:
                     mism.append(("raised", "PlaneDistanceMatching in map storage raised %r" % (ex,), rep))
+            # the same boxes with their extents given as integers / numpy integers
+            try:
+                import numpy as _np
+
+                Ai, Bi = mk(a, 0, (0, 0, 0), int_size=True), mk(b, 0, (0, 0, 0), int_size=True)
+                Bi.state.shape.size  # noqa: B018
+                cd_i, i2_i, i3_i, pd_i = scores(Ai, Bi)
+                if abs(cd_i - cd) > 1e-12 or abs(i2_i - iou2) > 1e-9 or abs(i3_i - iou3) > 1e-9 or abs(pd_i - pd) > 1e-9 or abs(Ai.get_area_bev() - A.get_area_bev()) > 1e-9:
+                    mism.append(("integer-extents", "extents given as ints: scores %s, as floats %s" % ((cd_i, i2_i, i3_i, pd_i), (cd, iou2, iou3, pd)), rep))
+            except Exception as ex:
+                mism.append(("raised", "integer extents raised %r" % (ex,), rep))
             # the same pair obtained by the library's own interpolation between two poses that were scored before (a derived object carries
             # whatever its sources had cached): the scores depend on the boxes only
             try:
